@@ -19,6 +19,31 @@ fn ty_str(t: &impl ToTokens) -> String {
     t.to_token_stream().to_string().chars().filter(|c| !c.is_whitespace()).collect()
 }
 
+/// like `ty_str`, with the blank after a lifetime kept (`&'a str`)
+fn ty_text(t: &impl ToTokens) -> String {
+    let s = ty_str(t);
+    let mut out = String::new();
+    let cs: Vec<char> = s.chars().collect();
+    let mut i = 0;
+    while i < cs.len() {
+        out.push(cs[i]);
+        if cs[i] == '\'' {
+            // copy the lifetime name, then a blank if an identifier follows
+            i += 1;
+            while i < cs.len() && cs[i].is_ascii_lowercase() && !s[i..].starts_with("str") {
+                out.push(cs[i]);
+                i += 1;
+            }
+            if i < cs.len() && cs[i].is_alphanumeric() {
+                out.push(' ');
+            }
+            continue;
+        }
+        i += 1;
+    }
+    out
+}
+
 /// `#[ns(key = "value")]` → value
 fn attr_str(attrs: &[syn::Attribute], ns: &str, key: &str) -> Option<String> {
     let mut out = None;
@@ -143,6 +168,113 @@ fn declarations(code: &str) -> Result<String, String> {
     Ok(out.join(" "))
 }
 
+fn gen(text: &str) -> Option<syn::File> {
+    let iface = zlink::idl::Interface::try_from(text).ok()?;
+    let code = zlink_codegen::generate_interface(&iface).ok()?;
+    syn::parse_file(&code).ok()
+}
+
+/// `zvg tables`: the tables of the code generator read off what it *generates* (used by extract/extract.py when
+/// codegen.rs no longer has the textual shape its patterns expect).
+/// `cg-keywords` / `cg-notraw`: for every candidate word, the identifier emitted for a field of that name
+/// (`r#word` = keyword, `word_` = keyword that cannot be a raw identifier, `word` = not a keyword).
+/// `cg-prim <table>:<IDL type>=<Rust type>`: the Rust type emitted for each primitive IDL type as a field of a custom
+/// type (`type_to_rust`), a method parameter (`type_to_rust_param`), the element of an array parameter
+/// (`type_to_rust_param_elem`) and a field of a method's output (`type_to_rust_output`).
+fn tables() {
+    let cands = ["abstract", "as", "async", "await", "become", "box", "break", "const", "continue", "crate", "do", "dyn", "else", "enum",
+        "extern", "false", "final", "fn", "for", "gen", "if", "impl", "in", "let", "loop", "macro", "match", "mod", "move", "mut",
+        "override", "priv", "pub", "ref", "return", "self", "Self", "static", "struct", "super", "trait", "true", "try", "type", "typeof",
+        "unsafe", "unsized", "use", "virtual", "where", "while", "yield",
+        // not keywords (must come out unchanged)
+        "union", "auto", "default", "name", "dynx", "r2", "Type"];
+    let mut kws = vec![];
+    let mut notraw = vec![];
+    for w in cands {
+        if w.chars().next().map_or(false, |c| c.is_uppercase()) {
+            // a capitalised word is probed as the name of a custom type (field names are snake-cased first)
+            let text = format!("interface a.b\ntype {w} (ok1: int)\n");
+            let Some(file) = gen(&text) else { continue };
+            for item in &file.items {
+                if let syn::Item::Struct(s) = item {
+                    let id = s.ident.to_string();
+                    if id == format!("r#{w}") {
+                        kws.push(w);
+                    } else if id == format!("{w}_") {
+                        kws.push(w);
+                        notraw.push(w);
+                    }
+                }
+            }
+            continue;
+        }
+        let text = format!("interface a.b\ntype Tq (ok1: int, {w}: int)\n");
+        let Some(file) = gen(&text) else { continue };
+        for item in &file.items {
+            if let syn::Item::Struct(s) = item {
+                if s.ident != "Tq" {
+                    continue;
+                }
+                if let Some(f) = s.fields.iter().nth(1) {
+                    let id = f.ident.as_ref().map(|i| i.to_string()).unwrap_or_default();
+                    if id == format!("r#{w}") {
+                        kws.push(w);
+                    } else if id == format!("{w}_") {
+                        kws.push(w);
+                        notraw.push(w);
+                    }
+                }
+            }
+        }
+    }
+    println!("cg-keywords {}", kws.join(" "));
+    println!("cg-notraw {}", notraw.join(" "));
+    let prims = [("bool", "Bool"), ("int", "Int"), ("float", "Float"), ("string", "String"), ("object", "ForeignObject")];
+    let mut rows = vec![];
+    for (idl, var) in prims {
+        let text = format!("interface a.b\ntype Tq (f: {idl})\nmethod Mq(p: {idl}, q: []{idl}) -> (o: {idl})\n");
+        let Some(file) = gen(&text) else { continue };
+        for item in &file.items {
+            match item {
+                syn::Item::Struct(s) if s.ident == "Tq" => {
+                    if let Some(f) = s.fields.iter().next() {
+                        rows.push(format!("type_to_rust:{var}={}", ty_str(&f.ty)));
+                    }
+                }
+                syn::Item::Struct(s) if s.ident == "MqOutput" => {
+                    if let Some(f) = s.fields.iter().next() {
+                        rows.push(format!("type_to_rust_output:{var}={}", ty_text(&f.ty).replace(' ', "~")));
+                    }
+                }
+                syn::Item::Trait(t) => {
+                    for it in &t.items {
+                        if let syn::TraitItem::Fn(f) = it {
+                            let tys: Vec<String> = f.sig.inputs.iter().filter_map(|a| if let syn::FnArg::Typed(p) = a { Some(ty_str(&p.ty)) } else { None }).collect();
+                            if tys.len() == 2 {
+                                rows.push(format!("type_to_rust_param:{var}={}", tys[0]));
+                                let e = tys[1].strip_prefix("&[").and_then(|x| x.strip_suffix(']')).unwrap_or(&tys[1]).to_string();
+                                rows.push(format!("type_to_rust_param_elem:{var}={e}"));
+                            }
+                        }
+                    }
+                }
+                _ => {}
+            }
+        }
+    }
+    // in the order of the source tables: table by table
+    let order = ["type_to_rust", "type_to_rust_param", "type_to_rust_param_elem", "type_to_rust_output"];
+    let mut sorted = vec![];
+    for t in order {
+        for r in &rows {
+            if r.starts_with(&format!("{t}:")) {
+                sorted.push(r.clone());
+            }
+        }
+    }
+    println!("cg-prim {}", sorted.join(" "));
+}
+
 fn main() {
     let args: Vec<String> = std::env::args().collect();
     match args.get(1).map(|s| s.as_str()) {
@@ -178,8 +310,9 @@ fn main() {
                 println!("case {} => {} {}", hex(l.as_bytes()), hex(l.to_snake_case().as_bytes()), hex(l.to_pascal_case().as_bytes()));
             }
         }
+        Some("tables") => tables(),
         _ => {
-            eprintln!("usage: zvg gen <idl-dir> <out-dir> | zvg case");
+            eprintln!("usage: zvg gen <idl-dir> <out-dir> | zvg case | zvg tables");
             std::process::exit(2);
         }
     }
